@@ -347,7 +347,7 @@ func check(c *enum.Ctx, k kase) {
 }
 
 func run(c *enum.Ctx) {
-	c.Rule("every index also iterates four foreign sequences (clean, with n/-/N/*, mixed case, with bytes 0x00/0x80/0xff); k=4: every sequence of length 5..7 (thorough 8) over {a,c,g,t,n} and every sequence of length 5..6 over {a,C,g,T,n,N} (case), every one of the 256 words queried, every sub-range [start,end) iterated; k=5..7: every sequence of length k+1..k+2 over {a,t,n}; k=8..10: every sequence of length k+1 over {a,n} (thorough {a,t,n}); RNA alphabet on fixed words; the size ladder: sequences of 2^j+9 letters (j=6..9, thorough 10) with one invalid letter at every position around every power of two; the index maps are asked for once before Build; for every k<=6 (thorough 8) every word value for Format/KmerOf/GCof/ComplementOf against string operations; oracle: brute-force windows; non-trivial = sequences with at least one valid window")
+	c.Rule("every index also iterates four foreign sequences (clean, with n/-/N/*, mixed case, with bytes 0x00/0x80/0xff); k=4: every sequence of length 5..7 (thorough 8) over {a,c,g,t,n} and every sequence of length 5..6 over {a,C,g,T,n,N} (case), every one of the 256 words queried, every sub-range [start,end) iterated; k=5..7: every sequence of length k+1..k+2 over {a,t,n}; k=8..10: every sequence of length k+1 over {a,n} (thorough {a,t,n}); RNA alphabet on fixed words; the size ladder: sequences of 2^j+9 letters (j=6..9, thorough 10) with one invalid letter at every position around every power of two, and of every ladder length 600..2049 (thorough 5001); the index maps are asked for once before Build; for every k<=6 (thorough 8) every word value for Format/KmerOf/GCof/ComplementOf against string operations; oracle: brute-force windows; non-trivial = sequences with at least one valid window")
 	c.Assume("positions of a k-mer are compared as sets", "a range shorter than k may return nil or an error but must not call back")
 	var cases []kase
 	maxL := 7
@@ -387,6 +387,18 @@ func run(c *enum.Ctx) {
 				cases = append(cases, kase{Kind: "index", K: 4, Seq: string(w)}, kase{Kind: "index", K: 6, Seq: string(w)})
 			}
 		}
+	}
+	// longer still: every ladder length 600..5001 (quick: to 2049), plain and with one invalid letter in the
+	// middle (position tables of thousands of entries)
+	topN := 2049
+	if !c.Quick {
+		topN = 5001
+	}
+	for _, n := range enum.Ladder(600, topN) {
+		base := []byte(seqgen.Fill("acgt", n))
+		w := append([]byte{}, base...)
+		w[n/2] = 'n'
+		cases = append(cases, kase{Kind: "index", K: 4, Seq: string(base)}, kase{Kind: "index", K: 6, Seq: string(w)})
 	}
 	maxWK := 6
 	if !c.Quick {
